@@ -1121,6 +1121,8 @@ class PeerA:
             t.abandoned = True
             if getattr(t, 'gone', None) is not None:
                 t.gone.set()        # the ASGI server reports http.disconnect
+            if getattr(t, 'conn', None) is not None:
+                t.conn.tr.drop()    # (aiohttp engine) the connection goes
             raise
         if t.exc is not None:
             raise PeerRefused('server error %r' % (t.exc,))
@@ -1245,6 +1247,21 @@ class PairAA:
         z = self.sim.teardown()
         self.cli.restore()
         return z
+
+
+class PairAH(PairAA):
+    """real AsyncClient <-> real AsyncServer behind the real aiohttp
+    adapter and web server (engine simH) on one virtual loop."""
+    kind = 'AH'
+
+    def __init__(self, server_kwargs=None, **client_kwargs):
+        from vf.simh import SimH
+        for k in ('policy', 'seed', 'yield_prob'):
+            client_kwargs.pop(k, None)
+        self.sim = SimH(server_kwargs)
+        self.loop = self.sim.loop
+        self.peer = PeerA(self.sim)
+        self.cli = CliA(self.loop, self.peer, **client_kwargs)
 
 
 # --------------------------------------------------------------------------
@@ -1386,4 +1403,5 @@ class PairAT:
         return z
 
 
-PAIRS = {'TT': PairTT, 'AA': PairAA, 'TA': PairTA, 'AT': PairAT}
+PAIRS = {'TT': PairTT, 'AA': PairAA, 'TA': PairTA, 'AT': PairAT,
+         'AH': PairAH}
